@@ -362,6 +362,10 @@ def check(prop, tier, nworkers, keep, deadline):
             print(ln)
         if shown > 12:
             print("mc: ... %d more violation signatures not shown (all replay files are under %s)" % (shown - 12, rdst))
+        if m["counters"].get("loader_seam_conformance_mismatches"):
+            for nn in m["notes"]:
+                sys.stderr.write("mc: " + nn + "\n")
+            die("the in-memory document loader does not conform to go-openapi/spec's default loader (harness problem, not a violation)")
         if m["execs"] == 0 and not new_v:
             die("no execution was run")
         code = 1 if new_v else 0
